@@ -331,10 +331,96 @@ def renderer_transparent(ctx, py: PyRepo):
     ctx.floor('renderer-transparent', 1)
 
 
+def argument_order(ctx, py: PyRepo):
+    """the renderer fills the format positionally from `inst.values()`: position = insertion order of the map.  That is the argument
+    order only if (1) Notation.__call__ stores the arguments as frozendict(enumerate(args)) and (2) Instantiate.instantiate rebuilds the
+    map with the stored entries first, all of them, in stored order (later parts may only add keys the map does not have)."""
+    from ..core.pyeval import PyEval, show
+    SELF = ('param', 'self')
+    call = py.method('Notation', '__call__', 'pattern')
+    rets = [p for p in PyEval().paths(call) if p.end[0] == 'return']
+    args_name = call.args.vararg.arg if call.args.vararg else None
+    ok = bool(rets) and args_name is not None and all(
+        p.end[1][0] == 'call' and p.end[1][1] == ('name', 'Instantiate') and len(p.end[1][2]) == 2
+        and _strip_fd(p.end[1][2][1]) in (('call', ('name', 'enumerate'), (('param', args_name),), ()), ('call', ('name', 'enumerate'), (('param', '*' + args_name),), ())) for p in rets)
+    ctx.ob('argument-order', 'Notation.__call__', ok,
+           'Notation.__call__ must store argument i under key i in argument order (frozendict(enumerate(args))): the renderer reads the '
+           'values positionally', py.where('pattern', call))
+    fn = py.method('Instantiate', 'instantiate', 'pattern')
+    where = py.where('pattern', fn)
+    n = 0
+    for p in PyEval().paths(fn):
+        if p.end[0] != 'return':
+            continue
+        v = p.end[1]
+        n += 1
+        if not (v[0] == 'call' and v[1] == ('name', 'Instantiate') and len(v[2]) == 2):
+            # delegating to the expansion yields no notation node: nothing to render positionally
+            ctx.ob('argument-order', f'Instantiate.instantiate/path{n}', 'simplify' in repr(v), f'result {show(v)[:80]} is not understood', where)
+            continue
+        m = _strip_fd(v[2][1])
+        parts = []
+        if m[0] == 'dict':
+            parts = [_strip_fd(val) for k, val in m[1] if k == ('const', '**')]
+            if len(parts) != len(m[1]):
+                parts = []
+        elif m[0] == 'binop' and m[1] == 'BitOr':
+            parts = [_strip_fd(m[2]), _strip_fd(m[3])]
+        else:
+            parts = [m]
+        first = parts[0] if parts else None
+        stored_items = ('call', ('attr', ('attr', SELF, 'inst'), 'items'), (), ())
+        first_ok = first is not None and first[0] == 'comp' and first[1] == 'dictcomp' and len(first[3]) == 1 \
+            and first[3][0][1] == stored_items and not first[3][0][2] and first[2][0] == 'pair' \
+            and first[2][1] == ('bound', first[3][0][0].strip('()').split(',')[0].strip())
+        ctx.ob('argument-order', f'Instantiate.instantiate/path{n}', bool(first_ok),
+               'Instantiate.instantiate must rebuild the argument map starting with ALL stored entries in stored order (a dict keeps '
+               'insertion order and the renderer fills `{0}`, `{1}`, .. from `inst.values()` positionally); here the first component is '
+               f'`{show(first)[:110] if first else show(m)[:110]}`: entries that come later change position and are printed in the wrong hole',
+               where)
+    ctx.floor('argument-order', 2)
+
+
+def _strip_fd(v):
+    while v[0] == 'call' and v[1] == ('name', 'frozendict') and len(v[2]) == 1:
+        v = v[2][0]
+    return v
+
+
+def transformers_treat_outputs_alike(ctx, py: PyRepo):
+    """the binary and the pretty file of a module are produced by running the same proof through the same wrappers (memoiser,
+    instantiation optimiser) around two different output interpreters; the step sequences correspond only if no wrapper behaves
+    differently for the two: a class test on the wrapped interpreter must not separate SerializingInterpreter from
+    PrettyPrintingInterpreter"""
+    ser = py.cls('SerializingInterpreter')
+    pp = py.cls('PrettyPrintingInterpreter')
+    anc_ser = {c.name for c in py.mro(ser)}
+    anc_pp = {c.name for c in py.mro(pp)}
+    base = py.cls('InterpreterTransformer')
+    n = 0
+    for ci in [base] + py.subclasses(base):
+        for mname, fn in ci.methods.items():
+            for node in ast.walk(fn):
+                if isinstance(node, ast.Call) and isinstance(node.func, ast.Name) and node.func.id == 'isinstance' and len(node.args) == 2 \
+                        and 'sub_interpreter' in ast.unparse(node.args[0]):
+                    names = [ast.unparse(e) for e in (node.args[1].elts if isinstance(node.args[1], ast.Tuple) else [node.args[1]])]
+                    n += 1
+                    s_in = any(x in anc_ser for x in names)
+                    p_in = any(x in anc_pp for x in names)
+                    ctx.ob('outputs-treated-alike', f'{ci.name}.{mname}:{"|".join(names)}', s_in == p_in,
+                           f'{ci.name}.{mname} tests the wrapped interpreter for {names}: the test is {s_in} for the binary serializer and '
+                           f'{p_in} for the pretty printer, so the two files of one module list different steps '
+                           f'(e.g. Load in one where the other rebuilds the pattern)', py.where(ci.module, node))
+    ctx.analysed['class tests on the wrapped interpreter'] = n
+    ctx.floor('outputs-treated-alike', 1)
+
+
 def run(ctx):
     py = PyRepo.get()
     notation_formats(ctx, py)
     renderer_transparent(ctx, py)
+    argument_order(ctx, py)
+    transformers_treat_outputs_alike(ctx, py)
     one_line_per_instruction(ctx, py)
     ctx.floor('format-covers-deps', 28)
     ctx.floor('one-line-per-step', 60)
